@@ -1,5 +1,6 @@
 CONSTANTS
   MaxPer = 2
+  MaxKw = 2
   Emit = FALSE
   Variant = "pinned"
 SPECIFICATION Spec
